@@ -90,29 +90,32 @@ ASSUME /\ SymEq(DPoly(<< G(1, 1, 0, 2) >>, 3), << G(-1, 1, 0, 4) >>)
        /\ ~SymEq(<< G(1, 1, 0, 2) >>, << G(1, 1, 0, 1) >>)
 
 \* ---- exact evaluation on the log-lattice -------------------------------------------------------
-\* pt = [lam |-> <<c12, c6, A, m, j0>>, P |-> P]:  r = P/2, B = m ln2, r0 = j0/2
+\* pt = [lam |-> <<c12, c6, A, m, j0>>, P |-> P, Q |-> Q, DP |-> DP]:  r = P/Q, B = m ln2, r0 = j0/Q
+\* (Q = 2: dyadic lattice; Q = 10: decimal r with accumulated round-off in the code's grid loops;
+\*  DP = highest power of d that may occur, 0 for the LJ 12-6 form)
 JOf(pt) == pt.P - pt.lam[5]
-OnLattice(pt) == pt.P > 0 /\ (pt.lam[4] * JOf(pt) * JOf(pt)) % 4 = 0
-ExpOf(pt) == (pt.lam[4] * JOf(pt) * JOf(pt)) \div 4         \* E = 2^-ExpOf
-\* numerator over 16 of the rational factor of a term (powers of d up to 4)
+OnLattice(pt) == pt.P > 0 /\ (pt.lam[4] * JOf(pt) * JOf(pt)) % (pt.Q * pt.Q) = 0
+ExpOf(pt) == (pt.lam[4] * JOf(pt) * JOf(pt)) \div (pt.Q * pt.Q)         \* E = 2^-ExpOf
+\* numerator over Q^DP of the rational factor of a term
 TermNum(t, pt) == t.co * Pow(pt.lam[1], t.e[1]) * Pow(pt.lam[2], t.e[2]) * Pow(pt.lam[3], t.e[3])
-                  * Pow(pt.lam[4], t.e[4]) * Pow(JOf(pt), t.e[5]) * Pow(2, 4 - t.e[5])
+                  * Pow(pt.lam[4], t.e[4]) * Pow(JOf(pt), t.e[5]) * Pow(pt.Q, pt.DP - t.e[5])
 EvalKeys == << <<0, 0, 0>>, <<0, 0, 6>>, <<0, 0, 12>>, <<0, 1, 0>>, <<1, 1, 0>>, <<2, 1, 0>>, <<1, 0, 0>>, <<2, 0, 0>> >>
 RECURSIVE GroupSum(_, _, _)
 GroupSum(p, pt, k) == IF p = << >> THEN 0
                       ELSE (IF <<Head(p).e[4], Head(p).g, Head(p).u>> = k THEN TermNum(Head(p), pt) ELSE 0)
                            + GroupSum(Tail(p), pt, k)
-Covered(p) == \A n \in DOMAIN p : p[n].e[5] <= 4 /\ \E k \in DOMAIN EvalKeys : EvalKeys[k] = <<p[n].e[4], p[n].g, p[n].u>>
+CoveredK(p) == \A n \in DOMAIN p : \E k \in DOMAIN EvalKeys : EvalKeys[k] = <<p[n].e[4], p[n].g, p[n].u>>
 \* value = sum over the returned terms of  n/d * ln2^l * 2^-e * (bn/bd)^bp
 Eval(p, pt) ==
   LET all == [k \in DOMAIN EvalKeys |->
-                [n |-> GroupSum(p, pt, EvalKeys[k]), d |-> 16, l |-> EvalKeys[k][1],
-                 e |-> EvalKeys[k][2] * ExpOf(pt), bn |-> 2, bd |-> pt.P, bp |-> EvalKeys[k][3]]]
+                [n |-> GroupSum(p, pt, EvalKeys[k]), d |-> Pow(pt.Q, pt.DP), l |-> EvalKeys[k][1],
+                 e |-> EvalKeys[k][2] * ExpOf(pt), bn |-> pt.Q, bd |-> pt.P, bp |-> EvalKeys[k][3]]]
   IN SelectSeq(all, LAMBDA t : t.n # 0)
 \* group-wise equality of two evaluated polynomials (sufficient for equality as reals)
-EvalEq(p, q, pt) == Covered(p) /\ Covered(q) /\ \A k \in DOMAIN EvalKeys : GroupSum(p, pt, EvalKeys[k]) = GroupSum(q, pt, EvalKeys[k])
+Covered(p, pt) == CoveredK(p) /\ \A n \in DOMAIN p : p[n].e[5] <= pt.DP
+EvalEq(p, q, pt) == Covered(p, pt) /\ Covered(q, pt) /\ \A k \in DOMAIN EvalKeys : GroupSum(p, pt, EvalKeys[k]) = GroupSum(q, pt, EvalKeys[k])
 
-ASSUME LET pt == [lam |-> <<3, 5, 2, 4, 1>>, P |-> 2]      \* r = 1, r0 = 1/2, d = 1/2, B = 4 ln2, E = 2^-1
+ASSUME LET pt == [lam |-> <<3, 5, 2, 4, 1>>, P |-> 2, Q |-> 2, DP |-> 4]      \* r = 1, r0 = 1/2, d = 1/2, B = 4 ln2, E = 2^-1
        IN /\ OnLattice(pt) /\ ExpOf(pt) = 1
           \* F = 3 - 5 + 2/2 : groups (l,g,u) = (0,0,12): 3*16, (0,0,6): -5*16, (0,1,0): 2*16
           /\ Eval(FLJG, pt) = << [n |-> -80, d |-> 16, l |-> 0, e |-> 0, bn |-> 2, bd |-> 2, bp |-> 6],
